@@ -216,7 +216,7 @@ def compute_marks() -> dict[str, frozenset[int]]:
 def op_key(op: dict) -> str:
     key = [op["op"], op["text"], op.get("mode") or "exec", op.get("py_version") or None, bool(op.get("verbose"))]
     if op.get("warn"):
-        key.append("W-error")  # computed in a process that turns SyntaxWarning into an error (python -W error::SyntaxWarning)
+        key.append("W-error")  # computed in a process that turns warnings into errors (python -W error)
     return json.dumps(key, ensure_ascii=True)
 
 
@@ -259,8 +259,19 @@ def execute_plain(op: dict, scratch: str) -> tuple[tuple, object]:
         slot = op.get("slot")
         name = file_name_for(op["text"]) if slot is None else f"slot_{slot}.xsh"
         path = pathlib.Path(scratch) / name
-        with open(path, "wb") as f:
-            f.write(op["text"].encode("utf-8"))
+        if op.get("rel"):
+            path = pathlib.Path(name)  # relative to wherever the caller's working directory is right now
+        try:
+            with open(path, "wb") as f:
+                f.write(op["text"].encode("utf-8"))
+        except OSError as e:
+            import errno
+
+            if e.errno not in (errno.EMFILE, errno.ENFILE):
+                raise
+            # The harness holds a dozen descriptors at most and the run has a limit of 40 or 64: if the caller cannot
+            # even write its file any more, earlier calls have left descriptors open.  That is the outcome of this call.
+            return ("exc", "OSError", "descriptor table exhausted before the call could start", "-"), e
         if op.get("pin_mtime"):
             os.utime(path, ns=(PINNED_MTIME_NS, PINNED_MTIME_NS))
         o, raw = kernel.outcome_of(XonshParser.parse_file, path, py_version=pyv, verbose=verbose)
@@ -366,7 +377,10 @@ def _golden_server_main(in_path: str, out_path: str) -> None:
         def one(op):
             import warnings
 
-            warnings.simplefilter("error" if op.get("warn") else "ignore", SyntaxWarning)
+            if op.get("warn"):
+                warnings.simplefilter("error")  # python -W error: every warning category is an exception
+            else:
+                warnings.simplefilter("ignore", SyntaxWarning)
             return execute_plain(op, scratch)[0]
 
         for op in ops:
@@ -952,7 +966,9 @@ def run_history_task(task: dict) -> dict:
     log = EventLog()
     results = []
     held: list[tuple[object, object, str]] = []
+    held_exceptions: list[BaseException] = []
     aborts_fired = []
+    home = os.getcwd()
     counter = _Counter(_MARKS)
     if mon.get_tool(TOOL) is None:
         mon.use_tool_id(TOOL, TOOL_NAME)
@@ -992,6 +1008,13 @@ def run_history_task(task: dict) -> dict:
                     rec["outcome"] = ("mutate-skipped",)
             elif op["op"] == "flood":
                 rec["outcome"] = execute_flood(op)
+            elif op["op"] == "chdir":
+                # the caller changes its working directory (a shell does that all the time); relative paths given to
+                # parse_file afterwards mean files in the new directory
+                d = os.path.join(scratch, f"cwd{op['to']}")
+                os.makedirs(d, exist_ok=True)
+                os.chdir(d)
+                rec["outcome"] = ("chdir", op["to"])
             elif fault and fault["kind"] == "cancel":
                 rec["outcome"] = execute_cancel(op)
             elif fault and fault["kind"] == "recursion_limit":
@@ -1043,10 +1066,12 @@ def run_history_task(task: dict) -> dict:
                 elif isinstance(raw, ast.AST):
                     held.append((op.get("id"), raw, outcome[1]))
             else:
-                outcome, raw = execute_plain(op, scratch)
+                outcome, raw = execute_plain(op, os.getcwd() if op.get("rel") else scratch)
                 rec["outcome"] = outcome
                 if isinstance(raw, ast.AST):
                     held.append((op.get("id"), raw, outcome[1]))
+                elif isinstance(raw, BaseException):
+                    held_exceptions.append(raw)  # a caller may keep what was raised at it (traceback and all)
             o = rec["outcome"]
             log.add(0, "return", (idx, o[0], hashlib.sha1(repr(o).encode()).hexdigest()[:12]))
             results.append(rec)
@@ -1066,6 +1091,7 @@ def run_history_task(task: dict) -> dict:
         }
     finally:
         sys.setrecursionlimit(base_limit)
+        os.chdir(home)
         shutil.rmtree(scratch, ignore_errors=True)
 
 
